@@ -53,6 +53,11 @@ func c13Queries(file int) []c13Q {
 		{model.And(model.Or(a1, bq), model.Not(model.And(a1, bq))), []string{"a"}},
 		{model.Not(model.Not(bq)), []string{"b", "b"}},
 		{model.Eq("nosuchcolumn", "1"), nil}, // invalid
+		// invalid, but next to an operand that could decide the AND on its own (a value that occurs nowhere): still invalid
+		{model.And(model.Eq("a", "nomatch"), model.Eq("nosuchcolumn", "1")), nil},
+		// an AND without operands as a direct operand of an AND (only the wire can say this): the library's answer counts
+		{model.And(a1, model.And()), nil},
+		{model.Not(model.And(model.And(), bq)), []string{"a"}},
 	}
 }
 
@@ -272,6 +277,23 @@ func c13CheckDriver(w *c13World, c c13Case) (viol string) {
 		if gerr == nil {
 			defer gs.Close()
 			defer fs.Close()
+			// direct execution with arguments of every kind database/sql passes through unchanged
+			for _, a := range [][]any{{[]byte("1"), "2"}, {nil, "é"}, {"x", []byte("é")}, {int64(1), int64(2)}, {"", nil}, {3.0, true}} {
+				rd := func(db *sql.DB) string {
+					rows, err := db.Query(tpl, a...)
+					if err != nil {
+						return "error"
+					}
+					s, err := scanAll(rows)
+					if err != nil {
+						return "scan error"
+					}
+					return s
+				}
+				if g, f := rd(gdb), rd(fdb); g != f {
+					return fmt.Sprintf("direct query %q with arguments %#v: grpc data source returned %s, file data source returned %s", tpl, a, g, f)
+				}
+			}
 			for i, a := range argsets {
 				rd := func(st *sql.Stmt) string {
 					rows, err := st.Query(a...)
@@ -437,7 +459,7 @@ func c13Run(ctx *rt.Ctx) []*rt.Violation {
 	}
 	outs := rt.RunJobs(ctx, jobs, rt.SpawnOpt{})
 	vs := rt.Collect(ctx, outs, nil)
-	ctx.Cov.Note("rule", fmt.Sprintf("4 index files (one with prefix-related columns a / ab whose name+value concatenations coincide) x server options {cache on/off} x {preload on/off}: every batch of length 0..%d over 8 queries (ungrouped, grouped by 1-2 columns, no match, NOT/OR/AND, one with an unknown column; for length <=2 also 3 structurally incomplete members) and 8 long batches of 4..12 queries (expensive first) x id patterns {all 0, explicit, duplicate, mixed, explicit ids equal to later positions} is sent to a real `updog server`; the response must hold one result per query in order with the id rule and the library's count and groups (library Execute on a copy of the file), an invalid member must fail the whole call; ToResult(ToProtobufResult(r)) == r for every library result; the 8 texts through sql.Open grpc:// and file: must give identical columns and rows; non-trivial = batches of >=2 queries and the driver comparisons", maxLen))
+	ctx.Cov.Note("rule", fmt.Sprintf("4 index files (one with prefix-related columns a / ab whose name+value concatenations coincide) x server options {cache on/off} x {preload on/off}: every batch of length 0..%d over 11 queries (ungrouped, grouped by 1-2 columns, no match, NOT/OR/AND, an unknown column alone and next to an absent value, an AND without operands nested in an AND; for length <=2 also 3 structurally incomplete members) and 8 long batches of 4..12 queries (expensive first) x id patterns {all 0, explicit, duplicate, mixed, explicit ids equal to later positions} is sent to a real `updog server`; the response must hold one result per query in order with the id rule and the library's count and groups (library Execute on a copy of the file), an invalid member must fail the whole call; ToResult(ToProtobufResult(r)) == r for every library result; the texts through sql.Open grpc:// and file: must give identical columns and rows (also prepared statements, and direct queries with []byte / nil / numeric arguments); non-trivial = batches of >=2 queries and the driver comparisons", maxLen))
 	ctx.Assumef("index strings are valid UTF-8 (protobuf strings cannot carry other bytes)")
 	return vs
 }
